@@ -36,6 +36,18 @@ func (c refCase) String() string {
 type absStage struct {
 	Name, Task, Pipeline string
 	Deps                 []string
+	Unnamed              bool // no `name:` key: the stage is named after its task or pipeline
+}
+
+// eff is the name the stage goes by.
+func (s *absStage) eff() string {
+	if !s.Unnamed {
+		return s.Name
+	}
+	if s.Task != "" {
+		return s.Task
+	}
+	return s.Pipeline
 }
 
 type absConfig struct {
@@ -51,6 +63,8 @@ func baseRefConfig() *absConfig {
 			"pa": {{Name: "a1", Task: "t1"}, {Name: "a2", Task: "t2", Deps: []string{"a1"}}, {Name: "a3", Task: "t3", Deps: []string{"a1", "a2"}}, {Name: "a4", Pipeline: "pb", Deps: []string{"a3"}}},
 			"pb": {{Name: "b1", Task: "t1"}, {Name: "b2", Task: "t2", Deps: []string{"b1"}}, {Name: "b3", Pipeline: "pc", Deps: []string{"b1"}}},
 			"pc": {{Name: "c1", Task: "t3"}, {Name: "c2", Task: "t1", Deps: []string{"c1"}}, {Name: "c3", Task: "t2", Deps: []string{"c1"}}},
+			// explicit names that coincide with task and pipeline names, and one stage that has no name of its own
+			"pd": {{Name: "t1", Task: "t2"}, {Name: "d2", Task: "t1"}, {Name: "pc", Task: "t3"}, {Name: "d4", Pipeline: "pc"}, {Task: "t3", Unnamed: true, Deps: []string{"t1"}}},
 		},
 		Watchers: map[string]string{"w1": "t2"},
 	}
@@ -70,7 +84,9 @@ func (a *absConfig) apply(e refEdit) {
 	case "watcher-task":
 		a.Watchers["w1"] = e.Value
 	case "stage-name":
-		st().Name = e.Value
+		st().Name, st().Unnamed = e.Value, false
+	case "unname":
+		st().Unnamed = true
 	case "neither":
 		st().Task, st().Pipeline = "", ""
 	case "both":
@@ -92,7 +108,10 @@ func (a *absConfig) wellFormed() (bool, string) {
 	for pn, stages := range a.Pipelines {
 		names := map[string]bool{}
 		for _, s := range stages {
-			n := s.Name
+			n := s.eff()
+			if s.Unnamed && n == "" {
+				return false, "stage without name, task and pipeline in " + pn
+			}
 			if names[n] {
 				return false, "duplicate stage name " + n + " in " + pn
 			}
@@ -113,7 +132,7 @@ func (a *absConfig) wellFormed() (bool, string) {
 		for _, s := range stages {
 			for _, d := range s.Deps {
 				if !names[d] {
-					return false, "stage " + s.Name + " depends on unknown stage " + d
+					return false, "stage " + s.eff() + " depends on unknown stage " + d
 				}
 			}
 		}
@@ -165,12 +184,22 @@ func (a *absConfig) yaml() string {
 	for _, p := range pns {
 		fmt.Fprintf(&b, "  %s:\n", p)
 		for _, s := range a.Pipelines[p] {
-			fmt.Fprintf(&b, "    - name: %s\n", s.Name)
+			first := "    - "
+			if !s.Unnamed {
+				fmt.Fprintf(&b, "    - name: %s\n", s.Name)
+				first = "      "
+			}
 			if s.Task != "" {
-				fmt.Fprintf(&b, "      task: %s\n", s.Task)
+				fmt.Fprintf(&b, "%stask: %s\n", first, s.Task)
+				first = "      "
 			}
 			if s.Pipeline != "" {
-				fmt.Fprintf(&b, "      pipeline: %s\n", s.Pipeline)
+				fmt.Fprintf(&b, "%spipeline: %s\n", first, s.Pipeline)
+				first = "      "
+			}
+			if first == "    - " {
+				b.WriteString("    - {}\n")
+				continue
 			}
 			if len(s.Deps) > 0 {
 				fmt.Fprintf(&b, "      depends_on: [%s]\n", strings.Join(s.Deps, ", "))
@@ -188,6 +217,13 @@ func c18One(x *ctx, c refCase) bool {
 	a := baseRefConfig()
 	for _, e := range c.Edits {
 		a.apply(e)
+	}
+	for _, stages := range a.Pipelines {
+		for _, s := range stages {
+			if s.Unnamed && s.Task != "" && s.Pipeline != "" {
+				return false // which of the two names such a stage is not defined by the property: not judged
+			}
+		}
 	}
 	ok, why := a.wellFormed()
 	dir := newCaseDir(x.root)
@@ -258,15 +294,20 @@ func refEdits() []refEdit {
 			if s.Task != "" {
 				out = append(out, refEdit{Kind: "stage-task", Pipeline: p, Stage: i, Value: "nope"})  // broken
 				out = append(out, refEdit{Kind: "stage-task", Pipeline: p, Stage: i, Value: "t3"})    // repaired / other valid
-				out = append(out, refEdit{Kind: "both", Pipeline: p, Stage: i, Value: "pc"})
+				if !s.Unnamed { // which of the two names an unnamed stage is not something the property defines
+					out = append(out, refEdit{Kind: "both", Pipeline: p, Stage: i, Value: "pc"})
+				}
 			} else {
 				out = append(out, refEdit{Kind: "stage-pipeline", Pipeline: p, Stage: i, Value: "nope"})
 				out = append(out, refEdit{Kind: "stage-pipeline", Pipeline: p, Stage: i, Value: "pc"})
 			}
 			out = append(out, refEdit{Kind: "neither", Pipeline: p, Stage: i})
+			if !s.Unnamed {
+				out = append(out, refEdit{Kind: "unname", Pipeline: p, Stage: i})
+			}
 			for d := range s.Deps {
 				out = append(out, refEdit{Kind: "dep", Pipeline: p, Stage: i, Dep: d, Value: "ghost"})
-				out = append(out, refEdit{Kind: "dep", Pipeline: p, Stage: i, Dep: d, Value: base.Pipelines[p][0].Name})
+				out = append(out, refEdit{Kind: "dep", Pipeline: p, Stage: i, Dep: d, Value: base.Pipelines[p][0].eff()})
 			}
 			out = append(out, refEdit{Kind: "add-dep", Pipeline: p, Stage: i, Value: "ghost"})
 			// a dependency on a stage of another pipeline is dangling too
@@ -277,7 +318,7 @@ func refEdits() []refEdit {
 			out = append(out, refEdit{Kind: "add-dep", Pipeline: p, Stage: i, Value: other})
 			for j := range base.Pipelines[p] {
 				if j != i {
-					out = append(out, refEdit{Kind: "stage-name", Pipeline: p, Stage: i, Value: base.Pipelines[p][j].Name})
+					out = append(out, refEdit{Kind: "stage-name", Pipeline: p, Stage: i, Value: base.Pipelines[p][j].eff()})
 				}
 			}
 			out = append(out, refEdit{Kind: "stage-name", Pipeline: p, Stage: i, Value: "fresh"})
